@@ -1910,6 +1910,11 @@ class Exec:
                 return [(st, VNone())]
             if name == 'encode':
                 return [(st, b)]
+            if name in ('upper', 'lower'):
+                F = z3.Function('STR_' + name.upper(), BYTES, BYTES)
+                t = F(self.seq(b, st))
+                st.facts.append(z3.Length(t) == z3.Length(self.seq(b, st)))
+                return [(st, VBytes(t))]
             if name == 'decode':
                 enc = A[0].s if A and isinstance(A[0], VStr) else (kws.get('encoding').s if kws.get('encoding') is not None else 'utf-8')
                 if enc in ('latin-1', 'latin1', 'iso-8859-1', 'ascii'):
@@ -2010,7 +2015,21 @@ class Exec:
                         del b.pairs[i]
                     return [(st, vv)]
                 if not z3.is_false(e):
-                    raise ToolLimit('dict.%s with a symbolic key' % name)
+                    if name == 'pop':
+                        raise ToolLimit('dict.pop with a symbolic key')
+                    # symbolic key: one branch per entry that may match, plus the default
+                    res = []
+                    rest = st
+                    for kk2, vv2 in b.pairs:
+                        e2 = self.eq(kk2, k, rest)
+                        for s2, t in self.fork(rest.clone(), e2):
+                            if t:
+                                res.append((s2, vv2))
+                        rest.pc.append(z3.Not(e2))
+                        if not self.feasible(rest, z3.BoolVal(True)):
+                            return res
+                    res.append((rest, A[1] if len(A) > 1 else VNone()))
+                    return res
             if len(A) > 1:
                 return [(st, A[1])]
             return [(st, VNone() if name == 'get' else Raise('KeyError', getattr(n, 'lineno', None)))]
